@@ -6,7 +6,7 @@ NOTE = ("Trusted: Coq 8.16 kernel, extraction (ExtrOcamlBasic/ExtrOcamlString), 
         "translator, Python harness (generators, ANTLR parse-tree elaboration, audit), the reading of the specification in Lang/*.v "
         "and Ssb/Machine.v; not modelled: compiler handler classes, igraph structuring passes and writers, ANTLR runtime, Pygments.")
 spec = {
- "C01": (tv, "Coq-verified translation validator (bisimulation checker with soundness theorem) on real compiler output; pass models proved closed and compared pass by pass",
+ "C01": (tv, "Coq-verified translation validator (bisimulation checker with soundness theorem) on real compiler output, end to end and stage by stage; label resolution of the back end proved behaviour preserving for all inputs (premises evaluated on every captured compilation)",
    "Every generated program accepted by the real compiler is decided, for all routines and all outcomes of all tests, by a bisimulation checker extracted from Coq whose soundness (accept => equal sequences of operations and tests under every oracle, unbounded length) is kernel-checked (Ssb/EquivSound.v); source meaning = Lang/SrcSem.v. The universal statement over all programs is not proved."),
  "C02": (tv, "Coq-verified translation validator on real decompiler output (text read by the spec and recompiled, both compared with the input)",
    "For every generated well-formed routine set the decompiled text must compile, and both the text read by Lang/SrcSem.v and its recompilation must be accepted as behaviourally equal to the input by the Coq-verified checker; routine tables compared. Universal claim not proved (structuring passes are not modelled)."),
@@ -22,8 +22,8 @@ spec = {
    "Script/Proofs.v script_roundtrip: compile_script(print_script P) = renumber P for every routine set with unique offsets and in-range integer targets; Script/Renumber.v renumber_same_cfg: renumbering keeps the flow graph. The model's statement lists and compiled ops are compared with the real text (parsed by the real SsbScript parser) and the real compiler."),
  "C08": ("exploration", "tagged-program generator with recorded positions vs the real compile-time source map",
    "every op-emitting construct carries a unique tag; positions recorded by the generator's printer are compared with the real map (direct, keyword statements, macro, call site, return address bounds, file set, position marks)."),
- "C09": ("exploration", "tagged inputs; decompile-time entries checked against the text and the compile-time map of the recompiled text",
-   "entries must be keyed by input offsets, point at the first token of the statement of that op, exist for every printed op, and agree in line with the compile-time map of the recompiled text."),
+ "C09": ("proof", "Coq proofs about a model of the decompilers' text writer (line counter, entry placement) + correspondence on both decompilers; tagged inputs: entries checked against the text and the compile-time map of the recompiled text",
+   "Dec/WriterProofs.v: the line counter equals 1 + line feeds written for every operation sequence; an entry recorded before a statement points at its first character. Partial: which op an entry is recorded for is decided on the real decompiler: entries must be keyed by input offsets, point at the first token of the statement of that op, exist for every printed op, and agree in line with the compile-time map of the recompiled text."),
  "C10": ("exploration", "statically meaningless constructs in hand-written contexts and injected into random valid programs; invalid import graphs; corrupted/degenerate inputs; outcome classes",
    "statically meaningless programs of every class named by the property must be rejected with a documented error; arbitrary inputs may only raise ParseError, SsbCompilerError or ValueError (exception site recorded)."),
  "C11": ("proof", "Coq frame theorem (history independence from two frame conditions) + audit of the frame conditions on the real process state after every call + differential over call histories vs fresh processes",
@@ -38,8 +38,8 @@ spec = {
    "exit status, JSON structure, jump numbering (via the verified bisimulation checker), acceptance and meaning of the decompile CLI's output, documented JSON documents incl. mixed routine kinds."),
  "C16": ("exploration", "token-level re-spelling/layout metamorphic check on the real compiler",
    "k re-spellings per accepted program must compile to identical ops, tables and position marks."),
- "C17": ("exploration", "token stream of the real lexer on structured, random Unicode, bounded-exhaustive texts, re-spelled programs and string literals with arbitrary escapes",
-   "concatenation equals the input, positions contiguous, termination under timeout, no error token on sources the compiler accepts."),
+ "C17": ("proof", "Coq proofs about a model of the RegexLexer token loop over the rule table regenerated from the lexer class (regexes as oracle) + engine correspondence + real token streams on generated texts",
+   "Pyg/Proofs.v: lossless for every text and matcher; total given min width >= 1 of every pattern; no error token given per-state coverage (both facts computed by the translator with sre_parse). The extracted loop fed with the real regexes' answers is compared with the real token stream; 'no error token on accepted sources' is additionally explored on generated sources."),
  "C18": ("exploration", "expected spans from the harness's own token placement vs the real listing; splice and recompile",
    "the listing must delimit every Position literal exactly; splicing the span changes that parameter only."),
 }
